@@ -109,6 +109,11 @@ def parseDecl (n : Nat) (s : String) : Option (Decl × Nat) :=
       | "-" => some none | "r" => some (some CopyMode.ref) | "s" => some (some .shallow)
       | "d" => some (some .deep) | _ => none)
     let (sh, rest) ← parseShape 20 rest
+    -- default `q`: a dynamic, non-reproducible default (`_name_default` handing out serial numbers)
+    if rest = ["q"] then
+      pure ({ name := name, shape := sh, kind := kind, transient := tr == "1", copy := cp, dflt := .leaf (.int 0),
+              dyn := true }, n)
+    else
     let (dv, n', rest) ← parseVal 50 n rest
     if rest ≠ [] then none
     else pure ({ name := name, shape := sh, kind := kind, transient := tr == "1", copy := cp, dflt := dv }, n')
@@ -350,7 +355,17 @@ def battery (s : Obj) (earlier : List Obj) (n : Nat) : String :=
         let rs := readAll r.2.2 sls
         ((r.2.1, r.1) :: rs.1, rs.2)
   let (vals, n1) := readAll n s.slots
-  let shown := vals.map (fun (sl, v) => sl.decl.name ++ "=" ++ showVal s.oid old er v)
+  -- a dynamic default is shown as `Q=` / `Q!`: equal or not to what the predecessor reads (afterwards)
+  let predRead (name : String) : Option String :=
+    match earlier.head? with
+    | none => none
+    | some p => (p.slots.find? (·.decl.name = name)).map (fun sl => showVal p.oid [] [] (readSlot E p.oid n1 sl).1)
+  let shown := vals.map (fun (sl, v) =>
+    if sl.decl.dyn then
+      sl.decl.name ++ "=" ++ (match predRead sl.decl.name with
+        | none => "Q"
+        | some pv => if pv = showVal s.oid [] [] v then "Q=" else "Q!")
+    else sl.decl.name ++ "=" ++ showVal s.oid old er v)
   let probes := vals.flatMap (fun (sl, v) => probeSlot s.oid n1 sl.decl.name sl.decl.shape v)
   let ro := vals.filterMap (fun (sl, _) =>
     if sl.decl.kind = .readonly then
@@ -582,12 +597,30 @@ def handleH (counts acts : String) : String :=
       s!"calls={showIntList (r1.1.map Int.ofNat)} again={showIntList (r2.1.map Int.ofNat)}"
   | _ => "bad-case"
 
+/-- `D|outer`: fate of the values of the deferred traits of the object being copied: read/write
+properties with copy metadata none / ref / shallow / deep, a `WeakRef` (copy="ref"), and prototyped
+values whose prototype trait has no metadata / `copy="ref"`. -/
+def handleD (outer : String) : String :=
+  let outer? : Option Outer := match words outer with
+    | ["clone", "n"] => some (.clone none) | ["clone", "s"] => some (.clone (some .shallow))
+    | ["clone", "d"] => some (.clone (some .deep)) | ["deepcopy"] => some .deepcopy
+    | _ => none
+  let showF : Fate → String
+    | .same => "same" | .shallow => "shallow" | .deep => "deep" | .lost => "lost"
+  match outer? with
+  | some o =>
+    let f (cm : Option CopyMode) := showF (deferredFate o cm false)
+    s!"p_none={f none} p_ref={f (some .ref)} p_shallow={f (some .shallow)} p_deep={f (some .deep)} " ++
+      s!"weak={f (some .ref)} proto_none={f none} proto_ref={f (some .ref)}"
+  | none => "bad-case"
+
 def handle (line : String) : String :=
   match (clean line).splitOn "|" with
   | ["P", decls, hist, copies] => handleP decls hist copies
   | ["T", ops] => handleT ops
   | ["R", cfg, ops] => handleR cfg ops
   | ["H", _, counts, acts] => handleH counts acts
+  | ["D", outer] => handleD outer
   | ["N", outer, ownerMeta] => handleN outer ownerMeta
   | ["N", outer, ownerMeta, _] => handleN outer ownerMeta
   | ["U", behs, items] => handleU behs items
